@@ -1262,6 +1262,10 @@ func TestVerifC09(t *testing.T) {
 			var cs c09CtlCase
 			_ = json.Unmarshal(line, &cs)
 			return c09RunCtl(cs)
+		case "flight":
+			var cs c09FlightCase
+			_ = json.Unmarshal(line, &cs)
+			return c09RunFlight(cs)
 		case "e2e":
 			var cs c09E2ECase
 			_ = json.Unmarshal(line, &cs)
